@@ -1,5 +1,6 @@
 (* C11 — Each layer reader behaves like a plain seekable byte stream.
    Only statements, `exact`, `Check` pins, `Print Assumptions` and non-vacuity examples. *)
+From MLA Require Import Limit.
 From MLA Require Import Base Stream EncLayer EncLayerProofs SrcTie Inst.
 From MLA Require Import CompLayer CompLayerProofs CompWriterProofs RawLayer RawLayerProofs LayerStack.
 From MLAGen Require Src.
@@ -179,10 +180,12 @@ Proof. exact sizes_info_kernels_eq. Qed.
 
 (* the writer is canonical: any pieces handed to write_all, then finalize, leave
    comp_format (concatenation) in the inner layer *)
-Theorem C11_comp_writer_canonical :
+Theorem C11_comp_writer_canonical {LIM : Limit} :
   forall BLOCK : N, 0 < BLOCK -> BLOCK < 2 ^ 32 ->
   forall (comp : bytes -> bytes) (pieces : list (list N)),
     12 + 4 * nblocks BLOCK (len (concat pieces)) < 2 ^ 32 ->
+    (* SizesInfo (8 + 4 * nblocks + 4 bytes) is serialised under the bincode limit *)
+    12 + 4 * nblocks BLOCK (len (concat pieces)) <= lim ->
     exists w1 w2 : cwriter,
       cw_write_pieces BLOCK comp cw_init pieces = (w1, Ok tt) /\
       cw_finalize comp w1 = (w2, Ok tt) /\
@@ -201,13 +204,13 @@ Theorem C11_comp_write_read_prod :
     (forall j : N, j < nb -> len (comp (block_at B plain j)) < 2 ^ 32) ->
     12 + 4 * nb <= LIMIT /\ 12 + 4 * nb < 2 ^ 32 -> len plain < 2 ^ 63 ->
     exists w1 w2 : cwriter,
-      cw_write_pieces B comp cw_init pieces = (w1, Ok tt) /\ cw_finalize comp w1 = (w2, Ok tt) /\
+      cw_write_pieces B comp cw_init pieces = (w1, Ok tt) /\ cw_finalize (LIM := LIMIT) comp w1 = (w2, Ok tt) /\
       exists R, Refines (CompReader B dec (Cursor (cw_out w2))) plain R /\
         exists c, comp_open LIMIT (Cursor (cw_out w2)) (fun i => (i, Ok tt)) 0 = (c, Ok tt) /\ R c 0.
 Proof.
   intros comp dec Hc pieces.
   destruct consts_ok_prod as (_ & _ & _ & _ & H5 & _ & _ & H8).
-  exact (comp_write_read_roundtrip _ H5 H8 comp dec Hc _ pieces).
+  exact (comp_write_read_roundtrip (LIM := Src.BINCODE_MAX_DESERIALIZE_prod) _ H5 H8 comp dec Hc pieces).
 Qed.
 
 Theorem C11_comp_write_read_verif :
@@ -220,13 +223,13 @@ Theorem C11_comp_write_read_verif :
     (forall j : N, j < nb -> len (comp (block_at B plain j)) < 2 ^ 32) ->
     12 + 4 * nb <= LIMIT /\ 12 + 4 * nb < 2 ^ 32 -> len plain < 2 ^ 63 ->
     exists w1 w2 : cwriter,
-      cw_write_pieces B comp cw_init pieces = (w1, Ok tt) /\ cw_finalize comp w1 = (w2, Ok tt) /\
+      cw_write_pieces B comp cw_init pieces = (w1, Ok tt) /\ cw_finalize (LIM := LIMIT) comp w1 = (w2, Ok tt) /\
       exists R, Refines (CompReader B dec (Cursor (cw_out w2))) plain R /\
         exists c, comp_open LIMIT (Cursor (cw_out w2)) (fun i => (i, Ok tt)) 0 = (c, Ok tt) /\ R c 0.
 Proof.
   intros comp dec Hc pieces.
   destruct consts_ok_verif as (_ & _ & _ & _ & H5 & _ & _ & H8).
-  exact (comp_write_read_roundtrip _ H5 H8 comp dec Hc _ pieces).
+  exact (comp_write_read_roundtrip (LIM := Src.BINCODE_MAX_DESERIALIZE_verif) _ H5 H8 comp dec Hc pieces).
 Qed.
 
 (* ================= raw layer ================= *)
@@ -321,7 +324,7 @@ Example C11_writer_cuts_agree :
   let B := Src.UNCOMPRESSED_DATA_SIZE_verif in
   let p := map (fun i => N.of_nat i mod 251) (seq 0 600) in
   let out pieces := match cw_write_pieces B toy_comp cw_init pieces with
-                    | (w, Ok _) => match cw_finalize toy_comp w with (w2, Ok _) => cw_out w2 | _ => [] end
+                    | (w, Ok _) => match cw_finalize (LIM := Src.BINCODE_MAX_DESERIALIZE_prod) toy_comp w with (w2, Ok _) => cw_out w2 | _ => [] end
                     | _ => [] end in
   out [p] = comp_format B toy_comp p /\
   out [takeN 256 p; dropN 256 p] = comp_format B toy_comp p /\
@@ -433,7 +436,7 @@ Theorem C11_info_stack_is_the_reader_stack :
        load_config dh kdf wdec wtag h privs = Ok (e, c, k, n) ->
        open_stack CHUNK TAG BLOCK LIMIT ksf tagf dec a e c k n (len a - len rest) = Ok s ->
        archive_open CHUNK TAG BLOCK LIMIT dh kdf wdec wtag ksf tagf dec a privs =
-       (do r <- ropen (StackS CHUNK TAG BLOCK ksf tagf dec a e c k n) s;
+       (do r <- ropen (LIM := LIMIT) (StackS CHUNK TAG BLOCK ksf tagf dec a e c k n) s;
         Ok
           (existT (fun p : oparams => rstate (stack_of CHUNK TAG BLOCK ksf tagf dec a p))
              {| op_enc := e; op_comp := c; op_key := k; op_nonce := n; op_off := len a - len rest |} r)) /\
@@ -442,7 +445,7 @@ Theorem C11_info_stack_is_the_reader_stack :
         match top_sizes CHUNK TAG BLOCK ksf tagf dec a e c k n s with
         | Some si => do t <- get_compressed_size ovf si; Ok (Some t)
         | None => Ok None
-        end; do r <- ropen (StackS CHUNK TAG BLOCK ksf tagf dec a e c k n) s; Ok {| ir_enc := e; ir_cmp := c; ir_comp := csz; ir_meta := r_meta r |})) /\
+        end; do r <- ropen (LIM := LIMIT) (StackS CHUNK TAG BLOCK ksf tagf dec a e c k n) s; Ok {| ir_enc := e; ir_cmp := c; ir_comp := csz; ir_meta := r_meta r |})) /\
   (forall (CHUNK TAG BLOCK LIMIT : N) (dh : bytes -> bytes -> bytes) (kdf : bytes -> bytes) (wdec wtag : bytes -> bytes -> bytes)
          (ksf : bytes -> bytes -> N -> N -> N) (tagf : bytes -> bytes -> N -> bytes -> bytes) (dec : bytes -> bytes) (ovf : bool) 
          (a : bytes) (privs : list bytes),
